@@ -332,7 +332,8 @@ type worker struct {
 	name string
 	rnd  *renderer
 	// leaf keys that failed on their own in this box (observed), by canonical text
-	failedLeaf map[string]bool
+	failedLeaf     map[string]bool
+	readOnlyFailed bool // failedLeaf is shared with other workers and complete: do not write
 }
 
 func dial(addr string) (*wire.Client, error) {
@@ -754,7 +755,7 @@ func (w *worker) runCase(c *tcase, text string) bool {
 				fmt.Sprintf("SEARCH answered %v (UIDs %v) but UID SEARCH answered %v", outs[0].nums, mapped, outs[1].nums))
 		}
 	}
-	if failed && isLeafCase(c.Keys) {
+	if failed && isLeafCase(c.Keys) && !w.readOnlyFailed {
 		w.failedLeaf[cn] = true
 	}
 	return true
@@ -969,8 +970,6 @@ func run(r *ev.Run, tier, replay string) {
 				return
 			}
 			sortCases(out.cases)
-			rnd := rand.New(rand.NewSource(seed*7919 + int64(bi)))
-			w := &worker{sh: sh, def: out.def, rnd: &renderer{rnd: rnd}, failedLeaf: map[string]bool{}}
 			// a few written-out cases per box
 			pick := rand.New(rand.NewSource(seed + int64(bi)))
 			var smp []interface{}
@@ -978,7 +977,35 @@ func run(r *ev.Run, tier, replay string) {
 				c := out.cases[pick.Intn(len(out.cases))]
 				smp = append(smp, map[string]interface{}{"box": box, "keys": canon(c.Keys), "expected": c.Exp})
 			}
-			w.runBox(out.cases, nil)
+			// single leaf keys first (what fails there is named in the signature of composite failures),
+			// then the composite cases, split over several views of the same content when there are many
+			nLeaf := 0
+			for nLeaf < len(out.cases) && isLeafCase(out.cases[nLeaf].Keys) {
+				nLeaf++
+			}
+			failed := map[string]bool{}
+			w0 := &worker{sh: sh, def: out.def, rnd: &renderer{rnd: rand.New(rand.NewSource(seed*7919 + int64(bi)*16))}, failedLeaf: failed}
+			w0.runBox(out.cases[:nLeaf], nil)
+			rest := out.cases[nLeaf:]
+			parts := 1
+			if len(rest) > 1000 {
+				parts = 3
+			}
+			var wg2 sync.WaitGroup
+			for k := 0; k < parts; k++ {
+				var mine []*tcase
+				for i := k; i < len(rest); i += parts {
+					mine = append(mine, rest[i])
+				}
+				wg2.Add(1)
+				go func(k int, mine []*tcase) {
+					defer wg2.Done()
+					// failed is only read from here on
+					w := &worker{sh: sh, def: out.def, rnd: &renderer{rnd: rand.New(rand.NewSource(seed*7919 + int64(bi)*16 + int64(k) + 1))}, failedLeaf: failed, readOnlyFailed: true}
+					w.runBox(mine, nil)
+				}(k, mine)
+			}
+			wg2.Wait()
 			mu.Lock()
 			total += int64(len(out.cases))
 			perBox[box] = len(out.cases)
